@@ -97,14 +97,9 @@ func runCost(proto string, p sx.Sx) sx.Sx {
 	if len(p.List) >= 7 { // the other half of the conversation, so that items are emitted and analysed
 		reply, reply0 = chunksOf(p.List[5]), chunksOf(p.List[6])
 	}
-	if len(p.List) >= 5 {
+	if len(p.List) >= 5 && len(p.List[4].List) > 0 {
 		// growth case: the same shape at a smaller size first; the per-byte cost must not grow with the size
 		n0, alloc0, ms0, end0, _ := measureCost(proto, side, chunksOf(p.List[4]), tail, reply0)
-		for i := 0; i < 2; i++ { // the time of the small run is noisy: the best of three
-			if _, _, m, _, _ := measureCost(proto, side, chunksOf(p.List[4]), tail, reply0); m < ms0 {
-				ms0 = m
-			}
-		}
 		pre = []sx.Sx{sx.A("n0"), sx.N(n0), sx.A("alloc0"), sx.U(alloc0), sx.A("ms0"), sx.I(ms0), sx.A("end0"), sx.A(end0)}
 	}
 	n, alloc, ms, end, items := measureCost(proto, side, chunksOf(p.List[1]), tail, reply)
@@ -235,6 +230,15 @@ func costTemplates(proto string) []costTemplate {
 			}
 			return append(out, byte(u))
 		}
+		uvar := func(v int64) []byte {
+			u := uint64(v)
+			var out []byte
+			for u >= 0x80 {
+				out = append(out, byte(u)|0x80)
+				u >>= 7
+			}
+			return append(out, byte(u))
+		}
 		be64 := func(v int64) []byte { b := make([]byte, 8); binary.BigEndian.PutUint64(b, uint64(v)); return b }
 		cat := func(parts ...[]byte) []byte {
 			var out []byte
@@ -269,6 +273,16 @@ func costTemplates(proto string) []costTemplate {
 			{"array-count", "c", append(be32(int64(len(full))), full[:12]...), be32, full[16:]},
 			{"string-length", "c", append(be32(int64(len(full))), full[:16]...), be16, full[18:]},
 			{"response-size", "s", nil, be32, []byte{0, 0, 0, 7, 0, 0, 0, 0}},
+			// flexible versions end in a tag buffer: ApiVersions v3 with the count of tagged fields of the header and of the
+			// body replaced (the whole message is rebuilt around the value, so that its size stays true)
+			{"tagged-field-count-body", "c", nil, func(v int64) []byte {
+				body := cat(be16(18), be16(3), be32(11), be16(2), []byte("cl"), []byte{0}, []byte{2, 'n'}, []byte{2, 'v'}, uvar(v))
+				return cat(be32(int64(len(body))), body)
+			}, nil},
+			{"tagged-field-count-header", "c", nil, func(v int64) []byte {
+				body := cat(be16(18), be16(3), be32(12), be16(2), []byte("cl"), uvar(v), []byte{2, 'n'}, []byte{2, 'v'}, []byte{0})
+				return cat(be32(int64(len(body))), body)
+			}, nil},
 		}
 	default: // http
 		var h2 bytes.Buffer
@@ -319,9 +333,6 @@ func genCost(proto string, r *Rand, tier string, emit func(sx.Sx)) {
 	}
 	for _, g := range growthShapes(proto) {
 		ps := pairs
-		if strings.HasPrefix(g.label, "distinct-") { // many distinct names: a quadratic term in CPU time only shows at this size
-			ps = [][2]int{{4000, 64000}}
-		}
 		for _, kk := range ps {
 			c := []sx.Sx{sx.A(g.side), sx.L(sx.B(g.build(kk[1]))), sx.A("eof"), sx.A(fmt.Sprintf("growth-%s=%d", g.label, kk[1])), sx.L(sx.B(g.build(kk[0])))}
 			if rp := growthReply(proto, g.label); rp != nil {
@@ -329,6 +340,19 @@ func genCost(proto string, r *Rand, tier string, emit func(sx.Sx)) {
 			}
 			emit(sx.L(c...))
 		}
+	}
+	// wide messages: a quarter of a million distinct names in one message, dissected as a whole exchange so that the
+	// item is analysed - a quadratic number of comparisons allocates nothing and only shows in the time, and only at
+	// this width does it exceed the linear bound by a margin that a busy machine cannot produce
+	for _, g := range growthShapes(proto) {
+		if !strings.HasPrefix(g.label, "distinct-") {
+			continue
+		}
+		if tier != "thorough" && g.label != "distinct-headers" && g.label != "distinct-cookies" {
+			continue
+		}
+		rp := growthReply(proto, g.label)
+		emit(sx.L(sx.A(g.side), sx.L(sx.B(g.build(256000))), sx.A("eof"), sx.A(fmt.Sprintf("wide-%s=256000", g.label)), sx.L(), sx.L(sx.B(rp)), sx.L()))
 	}
 	// well-formed streams of growing size: cost must grow linearly
 	sizes := []int{1, 10, 100, 1000}
